@@ -91,6 +91,20 @@ CHECKS = [
         "note": "The generator passed to mici is a scripted stand-in exposing standard_normal/normal only.",
     },
     {
+        "property_id": "C09",
+        "level": "exploration",
+        "technique": "model-based stateful testing (Hypothesis-generated histories over a pool of states and two "
+                     "systems): every call vs a freshly constructed state; steps/transitions vs a run with caching "
+                     "defeated",
+        "text": "Histories of assignments (fresh, in-place, equal values), copies, read-only copies, pickle round "
+                "trips, calls of every public method of two systems sharing the states, integrator steps and "
+                "transitions; each result must equal evaluation from scratch, and cache-laden runs must equal runs of "
+                "a derived system whose outermost cached-method entry empties the cache. Sampling, <= 30 operations.",
+        "design_ref": "DESIGN.md section 2, C09",
+        "note": "Variables are changed only through attribute assignment; element writes into arrays are outside the "
+                "documented contract.",
+    },
+    {
         "property_id": "C10",
         "level": "exploration",
         "technique": "property-based testing (Hypothesis): recursive expression-tree generator over all matrix "
@@ -113,6 +127,20 @@ CHECKS = [
                 "dense formula along a generated structured direction D. Sampling, size <= 5.",
         "design_ref": "DESIGN.md section 2, C11",
         "note": "Trusts numpy.linalg.slogdet/solve and the finite-difference error bound (1e-8 relative).",
+    },
+    {
+        "property_id": "C18",
+        "level": "exploration",
+        "technique": "model-based stateful testing with counting probes: harness-side model of what each state's "
+                     "cache lineage covers vs recorded user-function evaluations (argument bytes)",
+        "text": "Histories as in C09 plus chains of transitions with explicit integrators: no user function is "
+                "evaluated at a (function, position) already covered by the state's cache lineage (same state, "
+                "copies, momentum/direction assignment, lower-order values returned by derivative functions); no "
+                "position is evaluated twice within a trajectory from an evaluated start; leapfrog makes exactly n "
+                "gradient evaluations for n steps. Sampling, trajectories up to 64 steps / depth 5.",
+        "design_ref": "DESIGN.md section 2, C18",
+        "note": "The chain's never-evaluated first state, equal-value position re-assignment and pickled callables "
+                "are legitimate re-evaluations and excluded.",
     },
     {
         "property_id": "C19",
